@@ -482,7 +482,10 @@ def gen_roundtrip(r):
     return c
 
 
-PCHARS = list("abcXYZ019-._~!$&'()*+,;=:@") + ['%41', '%C3%A9', '%2F', '%2f', '%20', '%FF', '%e6%97%a5', '%25', '%eF%bB%Bf', '%cE%b1', '%4a', '%4A']
+PCHARS = list("abcXYZ019-._~!$&'()*+,;=:@") + ['%41', '%C3%A9', '%2F', '%2f', '%20', '%FF', '%e6%97%a5', '%25', '%eF%bB%Bf', '%cE%b1', '%4a', '%4A',
+                                                 # escapes of control characters, line breaks and odd blanks
+                                                 '%0A', '%0D', '%09', '%00', '%0B', '%0C', '%1C', '%7F', '%C2%85', '%E2%80%A8',
+                                                 '%E2%80%A9', '%C2%A0', '%E3%80%80', '%0d%0a']
 
 
 def gen_urltext(r):
